@@ -42,8 +42,32 @@ NearTexts == <<"x := 1\nswitch x {\ncase 1:\n\tbreak\n}\n", "switch {\ndefault:\
                "x := 1\nif x {\n}\n", "for \"a\" {\n}\n", "switch []int{} {\n}\n", "x := []int{\"a\"}\n", "x := []int{}\nx[\"a\"] = 1\n", "x := []int{}\nx[0] = \"a\"\n", "func v() {\n}\nx := v()\n", "func v() {\n}\nprint(v())\n", "func v() {\n}\nx := 1 + v()\n", "func v() {\n}\nif v() {\n}\n",
                "func v() {\n}\nx := []int{v()}\n", "func v() {\n}\ns := []int{1}\nprint(s[v()])\n", "func m() (int, int) {\n\treturn 1, 2\n}\nx := m()\n", "func m() (int, int) {\n\treturn 1, 2\n}\nx := 1 + m()\n", "func m() (int, int) {\n\treturn 1, 2\n}\nprint(m())\n",
                "func m() (int, int) {\n\treturn 1, 2\n}\na, b, c := m()\n", "func m() (int, int) {\n\treturn 1, 2\n}\nfunc n() (int, int) {\n\treturn m()\n}\n">>
+\* resource behaviour at moderate sizes: long operator chains, deep nesting, many branches / functions / statements must end with a script or an
+\* error within the deadline (exponential or quadratic algorithms, recursion depth)
+RECURSIVE RepX(_, _)
+RepX(c, n) == IF n = 0 THEN "" ELSE c \o RepX(c, n - 1)
+RECURSIVE FibFuncs(_, _)
+FibFuncs(i, n) == IF i > n THEN "" ELSE "func f" \o ToString(i) \o "() int {\n\treturn " \o (IF i <= 2 THEN "1" ELSE "f" \o ToString(i - 1) \o "() + f" \o ToString(i - 2) \o "()") \o "\n}\n" \o FibFuncs(i + 1, n)
+RECURSIVE ElifChain(_, _)
+ElifChain(i, n) == IF i > n THEN "" ELSE " else if x == " \o ToString(i) \o " {\n\tprint(" \o ToString(i) \o ")\n}" \o ElifChain(i + 1, n)
+RECURSIVE NestBlocks(_, _)
+NestBlocks(d, n) == IF d > n THEN RepX("\t", n) \o "print(x)\n" ELSE RepX("\t", d - 1) \o "if x > 0 {\n" \o NestBlocks(d + 1, n) \o RepX("\t", d - 1) \o "}\n"
+ScaleSizes == IF Quick THEN {24, 40} ELSE {24, 30, 40, 64, 100}
+ScaleTexts == {<<"chain-str/" \o ToString(n), "s := \"a\"" \o RepX(" + \"b\"", n) \o "\nprint(s)\n">> : n \in ScaleSizes}
+              \cup {<<"chain-int/" \o ToString(n), "func f(a int) int {\n\treturn a" \o RepX(" + a - 1", n \div 2) \o "\n}\nprint(f(2))\n">> : n \in ScaleSizes}
+              \cup {<<"chain-logic/" \o ToString(n), "p := true\nq := p" \o RepX(" && p || !p", n \div 2) \o "\nprint(q)\n">> : n \in ScaleSizes}
+              \cup {<<"chain-cmp/" \o ToString(n), "x := 1\nq := x < 2" \o RepX(" && x + 1 < 3", n \div 2) \o "\nprint(q)\n">> : n \in ScaleSizes}
+              \cup {<<"groups/" \o ToString(n), "x := " \o RepX("(", n) \o "1" \o RepX(")", n) \o "\nprint(x)\n">> : n \in ScaleSizes \cup {200}}
+              \cup {<<"nots/" \o ToString(n), "p := " \o RepX("!", n) \o "true\nprint(p)\n">> : n \in ScaleSizes \cup {200}}
+              \cup {<<"elifs/" \o ToString(n), "x := 3\nif x == 0 {\n\tprint(0)\n}" \o ElifChain(1, n) \o "\n">> : n \in ScaleSizes}
+              \cup {<<"blocks/" \o ToString(n), "x := 1\n" \o NestBlocks(1, n)>> : n \in {24, 40, 100}}
+              \cup {<<"fibfuncs/" \o ToString(n), FibFuncs(1, n) \o "print(f" \o ToString(n) \o "())\n">> : n \in ScaleSizes}
+              \cup {<<"statements/" \o ToString(n), "x := 0\n" \o RepX("x = x + 1\nprint(x)\n", n * 10)>> : n \in {40}}
+              \cup {<<"callargs/" \o ToString(n), "func id(a int) int {\n\treturn a\n}\nprint(" \o RepX("id(", n) \o "1" \o RepX(")", n) \o ")\n">> : n \in ScaleSizes}
+              \cup {<<"slicelit/" \o ToString(n), "s := []int{1" \o RepX(", 2", n * 5) \o "}\nprint(len(s))\n">> : n \in ScaleSizes}
+Scale == {[id |-> "C13/scale/" \o t[1], text |-> t[2], mode |-> "proto", expect |-> "any"] : t \in ScaleTexts}
 Near == {[id |-> "C13/near/" \o ToString(i), text |-> NearTexts[i], mode |-> "proto", expect |-> "any"] : i \in 1..Len(NearTexts)}
 ASSUME ndJsonSerialize("fam.ndjson", SetToSeq(Bytes))
-ASSUME ndJsonSerialize("famnear.ndjson", SetToSeq(Near))
+ASSUME ndJsonSerialize("famnear.ndjson", SetToSeq(Near \cup Scale))
 ASSUME ndJsonSerialize("famgraph.ndjson", SetToSeq(GraphCases))
 =============================================================================
